@@ -212,26 +212,96 @@ theorem fromStates_Tnuc_within_one_step (h : Hyp inp kCN i) (hice : never 0 (sig
   simp [getWrapPrev, Nat.ne_of_gt h0, hT]
 
 /-- **the counter on the states path** counts the stored vials whose `σ` exceeds the threshold in
-the column of the FIRST GRID TIME ≥ t (for every query time not beyond the last grid time). -/
+the column of the FIRST GRID TIME ≥ t; for a query time beyond the last stored time (no grid time
+reaches it) it counts them in the LAST stored column (repaired accessor, /repo 9deb6c8). -/
 theorem counter_states (times : List ℝ) (thr : Option ℝ) (solThr : ℝ) (t : List ℝ) (Xs : List (List ℝ))
     (a b : List (Option ℝ)) :
     sigmaCounter true times thr solThr true t Xs a b
       = .ok (times.map fun q => countAbove (thr.getD solThr) Xs (timeIdx t q)) ∧
-    ∀ q, (∃ x ∈ t, q ≤ x) →
-      ∃ hI : timeIdx t q < t.length, q ≤ t[timeIdx t q] ∧ ∀ j (hj : j < t.length), j < timeIdx t q → t[j] < q := by
-  constructor
+    (∀ q, (∃ x ∈ t, q ≤ x) →
+      ∃ hI : timeIdx t q < t.length, q ≤ t[timeIdx t q] ∧ ∀ j (hj : j < t.length), j < timeIdx t q → t[j] < q) ∧
+    (∀ q, (∀ x ∈ t, x < q) → timeIdx t q = t.length - 1) := by
+  refine ⟨?_, ?_, fun q hq => timeIdx_beyond t q hq⟩
   · simp only [sigmaCounter, Bool.not_true, Bool.false_eq_true, if_false]
     induction times with
     | nil => rfl
     | cons q r ih => simp only [List.mapM_cons, List.map_cons, ih]; rfl
   · intro q hq
+    rw [timeIdx_of_reached t q hq]
     obtain ⟨x, hx, hqx⟩ := hq
     obtain ⟨hI, h1, h2⟩ := argmaxBool_spec (fun x => decide (q ≤ x)) t ⟨x, hx, by simpa using hqx⟩
-    refine ⟨hI, by simpa [timeIdx] using h1, ?_⟩
+    refine ⟨hI, by simpa [timeIdxOld] using h1, ?_⟩
     intro j hj hlt
     have := h2 j hj hlt
-    simpa [timeIdx] using this
+    simpa [timeIdxOld] using this
 
+/-- **beyond the last stored time the two paths agree** (full recording, repaired accessor): for a
+query time `t[N−1] < q < N·dt` the states path counts `#{i | X_sigma[i, N−1] > 0}` (last stored
+column), the stats path counts `#{i | t_nucleation[i] ≤ q}`, and the two numbers are equal.  (From
+`q ≥ N·dt` on the stats path additionally counts the vials that nucleated in the last step, K3.) -/
+theorem counter_nuc_stats_beyond_end (hall : ∀ i, i < inp.nVials → Hyp inp kCN i) (hN : 0 < NN inp)
+    (q : ℝ) (h1 : timeAt inp.p.dt (NN inp - 1) < q) (h2 : q < timeAt inp.p.dt (NN inp))
+    (solThr : ℝ) (sS : List (Option ℝ)) :
+    let t := timeVec (NN inp) inp.p.dt
+    let Xs := (List.range inp.nVials).map (sigmaRow inp kCN)
+    let sT := (List.range inp.nVials).map fun i => (finalV inp kCN i).tNuc
+    (0 < inp.nVials → sigmaCounter true [q] (some 0) solThr true t Xs sT sS = .ok [countAbove 0 Xs (NN inp - 1)]) ∧
+    sigmaCounter true [q] (some 0) solThr false t Xs sT sS = .ok [countLe sT q] ∧
+    countLe sT q = countAbove 0 Xs (NN inp - 1) := by
+  intro t Xs sT
+  refine ⟨?_, by simp [sigmaCounter, sigmaCount1], ?_⟩
+  · intro hn
+    have hdt := (hall 0 hn).dt_pos
+    have hI : timeIdx t q = NN inp - 1 := by
+      have hb : ∀ x ∈ t, x < q := by
+        intro x hx
+        simp only [t] at hx
+        rw [Snow.CNT.timeVec_real _ hdt] at hx
+        obtain ⟨k, hk, rfl⟩ := List.mem_map.mp hx
+        have hk' : k ≤ NN inp - 1 := by have := List.mem_range.mp hk; omega
+        have := (timeAt_mono inp.p.dt hdt k (NN inp - 1)).mpr hk'
+        simp only [timeAt, ofNat'_real] at this h1
+        linarith
+      rw [timeIdx_beyond t q hb]
+      simp [t, Snow.CNT.timeVec_length _ hdt]
+    simp only [sigmaCounter, Bool.not_true, Bool.false_eq_true, if_false, sigmaCount1, if_true,
+      Option.getD_some, List.mapM_cons, List.mapM_nil, hI]
+    rfl
+  · simp only [countLe, countAbove, sT, Xs, List.countP_map]
+    apply List.countP_congr
+    intro i hi
+    have hi' : i < inp.nVials := List.mem_range.mp hi
+    have h := hall i hi'
+    have hm : NN inp - 1 < NN inp := by omega
+    have hiff := nucleated_by_iff inp kCN i hi' h.dt_pos h.jump h.adm (NN inp - 1) hm
+    have hrow : (sigmaRow inp kCN i)[NN inp - 1]? = some (nth (vtraj inp kCN i) (NN inp - 1)).sigma := by
+      rw [← sigmaRow_get inp kCN i _ hm]; exact List.getElem?_eq_getElem _
+    simp only [Function.comp, hrow, decide_eq_true_eq]
+    -- a recorded time is (k+1)·dt with k < N: `≤ q < N·dt` is the same as `≤ t[N−1]`
+    have grid : ∀ τ, (finalV inp kCN i).tNuc = some τ → (τ ≤ q ↔ τ ≤ timeAt inp.p.dt (NN inp - 1)) := by
+      intro τ hτ
+      obtain ⟨k, hk, e⟩ := tnuc_grid hi' τ hτ
+      constructor
+      · intro hle
+        have hlt : τ < timeAt inp.p.dt (NN inp) := lt_of_le_of_lt hle h2
+        have e' : τ = timeAt inp.p.dt (k + 1) := by rw [e]; simp [timeAt]
+        rw [e'] at hlt ⊢
+        have : k + 1 < NN inp := by
+          by_contra hcon
+          have := (timeAt_mono inp.p.dt h.dt_pos (NN inp) (k + 1)).mpr (by omega)
+          linarith
+        exact (timeAt_mono inp.p.dt h.dt_pos _ _).mpr (by omega)
+      · intro hle; exact le_of_lt (lt_of_le_of_lt hle h1)
+    constructor
+    · intro hh
+      cases ht : (finalV inp kCN i).tNuc with
+      | none => rw [ht] at hh; exact absurd hh (by simp)
+      | some τ =>
+        rw [ht] at hh
+        exact hiff.mp ⟨τ, ht, (grid τ ht).mp (by simpa using hh)⟩
+    · intro hh
+      obtain ⟨τ, ht, hle⟩ := hiff.mpr hh
+      rw [ht]; simpa using (grid τ ht).mpr hle
 
 /-- **the counters of nucleated vials agree with the trajectories** at every on-grid time `t[m]`
 (full recording): the stats path counts `#{i | t_nucleation[i] ≤ t[m]}`, the states path counts
@@ -324,7 +394,8 @@ theorem counter_sol_stats_counterexample (kCN : Nat) :
     simp [sigmaCounter, sigmaCount1, cexInp, countLe]
   · rw [h1, h2, ht, cex2_sigmaRow]
     have hI : timeIdx ([0, 1, 2] : List ℝ) 0 = 0 := by
-      unfold timeIdx
+      rw [timeIdx_of_reached _ _ ⟨0, by simp, le_refl _⟩]
+      unfold timeIdxOld
       exact argmaxBool_eq _ _ 0 (by simp) (by simp) (by intro j hj hlt; omega)
     simp [sigmaCounter, sigmaCount1, cexInp, countAbove, hI]
 
@@ -375,28 +446,32 @@ theorem fromStates_times_eq_all (inp : Inputs ℝ) (kCN : Nat) (hall : ∀ i, i 
 theorem hyp_jump_of_valid (ph : Phys) (hv : ph.Valid) (p : Params ℝ) (hc : p.c = ph.consts) : JumpPos p :=
   jumpPos_of_valid ph hv p hc
 
-/-- **K7**: a query time BEYOND the last grid time: `np.argmax(self._t >= t)` of an all-False array
-is 0, so the states path of `sigmaCounter` silently reports the INITIAL column.  Here (`t = 5 > 2`) it
-counts 0 nucleated vials although the last stored column holds ice (`σ = 41/44`) and the stats path
-counts the vial (`t_nucleation = 1 ≤ 5`).  (`counter_states` carries the hypothesis `∃ x ∈ t, q ≤ x`.) -/
+/-- **K9, refutation of the OLD code** (before /repo 9deb6c8): for a query time BEYOND the last stored
+time `np.argmax(self._t >= t)` of an all-False array is 0, so the old states path of `sigmaCounter`
+read the INITIAL column: here (`t = 5 > 2`) `timeIdxOld = 0` and the old count is 0 although the last
+stored column holds ice (`σ = 41/44`) and the stats path counts the vial (`t_nucleation = 1 ≤ 5`).
+The REPAIRED accessor (`timeIdx`, last stored column) counts 1, like the stats path. -/
 theorem counter_states_beyond_end_counterexample (kCN : Nat) :
     timeVec 3 (cexInp 2).p.dt = [0, 1, 2] ∧ sigmaRow (cexInp 2) kCN 0 = [0, 1/2, 41/44] ∧
+    timeIdxOld (timeVec 3 (cexInp 2).p.dt) 5 = 0 ∧
+    countAbove 0 [sigmaRow (cexInp 2) kCN 0] (timeIdxOld (timeVec 3 (cexInp 2).p.dt) 5) = 0 ∧
     sigmaCounter true [5] (some 0) (cexInp 2).p.threshold true (timeVec 3 (cexInp 2).p.dt)
-        [sigmaRow (cexInp 2) kCN 0] [(finalV (cexInp 2) kCN 0).tNuc] [(finalV (cexInp 2) kCN 0).tSol] = .ok [0] ∧
+        [sigmaRow (cexInp 2) kCN 0] [(finalV (cexInp 2) kCN 0).tNuc] [(finalV (cexInp 2) kCN 0).tSol] = .ok [1] ∧
     sigmaCounter true [5] (some 0) (cexInp 2).p.threshold false (timeVec 3 (cexInp 2).p.dt)
         [sigmaRow (cexInp 2) kCN 0] [(finalV (cexInp 2) kCN 0).tNuc] [(finalV (cexInp 2) kCN 0).tSol] = .ok [1] := by
   have h1 : (finalV (cexInp 2) kCN 0).tNuc = some 1 := by rw [finalV, cex2_final]; exact (cex_step2 2 kCN _).1
   have ht : timeVec 3 (cexInp 2).p.dt = [0, 1, 2] := by
     rw [Snow.CNT.timeVec_real 3 (by simp [cexInp])]; simp [cexInp, List.range_succ]
-  refine ⟨ht, cex2_sigmaRow kCN, ?_, ?_⟩
+  have hb : ∀ x ∈ ([0, 1, 2] : List ℝ), x < 5 := by
+    intro x hx
+    simp only [List.mem_cons, List.not_mem_nil, or_false] at hx
+    rcases hx with rfl | rfl | rfl <;> norm_num
+  have hOld : timeIdxOld ([0, 1, 2] : List ℝ) 5 = 0 := timeIdxOld_beyond _ _ hb
+  have hNew : timeIdx ([0, 1, 2] : List ℝ) 5 = 2 := by rw [timeIdx_beyond _ _ hb]; rfl
+  refine ⟨ht, cex2_sigmaRow kCN, by rw [ht]; exact hOld, ?_, ?_, ?_⟩
+  · rw [ht, hOld, cex2_sigmaRow]; simp [countAbove]
   · rw [ht, cex2_sigmaRow]
-    have hI : timeIdx ([0, 1, 2] : List ℝ) 5 = 0 := by
-      unfold timeIdx
-      apply argmaxBool_none
-      intro x hx
-      simp only [List.mem_cons, List.not_mem_nil, or_false] at hx
-      rcases hx with rfl | rfl | rfl <;> norm_num
-    simp [sigmaCounter, sigmaCount1, countAbove, hI]
+    simp [sigmaCounter, sigmaCount1, countAbove, hNew]
   · rw [h1]
     simp [sigmaCounter, sigmaCount1, countLe]
 
